@@ -21,7 +21,7 @@ SOFT = ["Coulomb.event_handler=two_leaf_unit_event_handler", "TwoLeafUnitEventHa
         "InversePowerPotential.prefactor=1.0", "InversePowerPotential.power=2", "HypercubicSetting.beta=2"]
 DESIGN = {"quick": ["MultiProc_3.cfg", "MultiProc_3c2.cfg", "MultiProc_3c4.cfg"],
           "thorough": ["MultiProc_3.cfg", "MultiProc_3c2.cfg", "MultiProc_3c4.cfg", "MultiProc_3x3.cfg", "MultiProc_4s.cfg", "MultiProc_4sc4.cfg",
-                       "MultiProc_4sc2.cfg"]}
+                       "MultiProc_4sc2.cfg", "MultiProc_4sc2x3.cfg"]}
 
 
 def run(chk):
